@@ -246,7 +246,9 @@ def shortestAux (m : Nat) (e : Int) (x : SF) (p10 : Int) : Nat â†’ Nat â†’ Nat Ã
     let (lo, hi) := kDigitBracket m e k p
     let okLo := lo > 0 && ofDecimal false lo p == x
     let okHi := ofDecimal false hi p == x
-    if okLo && okHi then (if closerOrEq m e p lo hi then (lo, p) else (hi, p))
+    if okLo && okHi then
+      (if closerOrEq m e p lo hi && closerOrEq m e p hi lo then (if lo % 2 = 0 then (lo, p) else (hi, p))  -- tie: even digit
+       else if closerOrEq m e p lo hi then (lo, p) else (hi, p))
     else if okLo then (lo, p)
     else if okHi then (hi, p)
     else shortestAux m e x p10 fuel (k + 1)
